@@ -80,6 +80,11 @@ package limits
 //@   modifies E:github.com/tmpim/casket/caskethttp/httpserver.PathLimit
 //@ func (*pathLimitSorter).Less
 //@   requires s != nil && 0 <= i && i < len(s.pathLimits) && 0 <= j && j < len(s.pathLimits)
+//@ // what the server relies on when it takes the strictest header limit of a listener's sites (httpserver unit
+//@ // listener_header_limit requires every site's value to be >= 0, 0 meaning "not set"): the only store is of a positive size
+//@ func parseLimits
+//@   requires c != nil
+//@   at call fieldstore:Limits.MaxRequestHeaderSize before [a_stored_header_limit_is_positive] arg1 >= 1
 
 //@ unit wrap_constructor frames=on props=C17 nilchecks=on filter=`limits\.MaxBytesReader$`
 //@ // what limit_handler assumes of MaxBytesReader with the ABSTRACT isWrap/wrapLimit, proved for their intended meaning:
